@@ -43,13 +43,25 @@ def smooth_case(draw):
     if draw(st.integers(0, 5)) == 0:
         # a huge dynamic range (saturated pixel, cosmic ray): a window mean must depend on its own samples only
         x[draw(st.integers(0, n - 1))] = draw(st.sampled_from([1e16, -1e18, 1e12, 3e17]))
-    return dict(x=x, width=draw(st.integers(1, n)), edge=draw(st.booleans()), dtype=draw(st.sampled_from(['f8', 'f4'])))
+    return dict(x=x, width=draw(st.integers(1, n)), edge=draw(st.booleans()), dtype=draw(st.sampled_from(['f8', 'f4'])),
+                view=draw(st.sampled_from(['contiguous', 'contiguous', 'every-other', 'column', 'reversed'])))
 
 
 def smooth_body(case):
     from pydl import smooth
     x = np.array(case['x'], dtype=case['dtype'])
     n = len(x)
+    view = case.get('view', 'contiguous')
+    if view == 'every-other':          # the same values handed over as a strided view (every other sample of a longer array)
+        buf = np.zeros(2 * n, dtype=x.dtype) + 7
+        buf[::2] = x
+        x = buf[::2]
+    elif view == 'column':             # a column of a C-ordered image
+        img = np.zeros((n, 3), dtype=x.dtype) - 3
+        img[:, 1] = x
+        x = img[:, 1]
+    elif view == 'reversed':
+        x = x[::-1].copy()[::-1]
     w = case['width'] + 1 if case['width'] % 2 == 0 else case['width']
     keep = x.copy()
     got = call(smooth, x, case['width'], edge_truncate=case['edge'])
@@ -143,12 +155,15 @@ def uniq_case(draw):
     n = draw(st.integers(1, 60))
     dtype = draw(st.sampled_from(['i4', 'f8', 'i8']))
     vals = [draw(st.integers(-4, 4)) for _ in range(n)] if draw(st.integers(0, 4)) else [draw(st.integers(-4, 4))] * n
-    return dict(x=vals, dtype=dtype, use_index=draw(st.booleans()))
+    inf = dtype == 'f8' and draw(st.integers(0, 3)) == 0        # runs of +-infinity at the ends of a sorted float array
+    return dict(x=vals, dtype=dtype, use_index=draw(st.booleans()), inf=inf)
 
 
 def uniq_body(case):
     from pydl import uniq
     x = np.array(case['x'], dtype=case['dtype'])
+    if case.get('inf'):
+        x = np.where(x <= -3, -np.inf, np.where(x >= 3, np.inf, x))
     if case['use_index']:
         idx = np.argsort(x, kind='stable')
         got = call(uniq, x, idx)
@@ -168,9 +183,10 @@ def uniq_body(case):
 def rebin_case(draw):
     ndim = draw(st.sampled_from([2, 1, 3]))
     shape, target, ops = [], [], []
-    for _ in range(ndim):
+    bigaxis = draw(st.integers(0, ndim - 1))
+    for ax in range(ndim):
         op = draw(st.sampled_from(['expand', 'shrink', 'keep', 'expand']))
-        f = draw(st.sampled_from([2, 3, 4]))
+        f = draw(st.sampled_from([2, 3, 4] if ax != bigaxis else [2, 3, 4, 49, 5, 7, 10, 98, 6]))
         if op == 'shrink':
             m = draw(st.integers(1, 3))
             shape.append(m * f)
@@ -201,10 +217,9 @@ def rebin_reference(a, target, sample):
         xx = np.moveaxis(xx, k, 0)
         new = np.zeros((d,) + xx.shape[1:], dtype=a.dtype)
         if d > d0:
-            f = d0 / d
             for i in range(d):
-                p = f * i
-                fp = int(np.floor(p))
+                p = (i * d0) / d            # output sample i sits at input position i*d0/d: whole part by integer arithmetic
+                fp = (i * d0) // d
                 if sample or p >= d0 - 1:
                     new[i] = xx[fp]
                 else:
